@@ -30,6 +30,26 @@ CLAIMED = {
             "decided per token shape (1-4 items) for all limit values; DecimalRange for all k/10^s, |k|<10^6; every "
             "spelling pushed through the real tokenizer natively."),
 }
+# native parts added later (concrete cases through code the solver cannot enter; exploration, labelled as such in the evidence)
+NATIVE = {
+    "C02": " Native part: documented DateTime value ranges, Decimal texts against decimal.Decimal, numeric and non-ASCII RegEx / Pattern cases.",
+    "C03": " Plus consecutive rows through the real Reader and 'allowed characters' declared after the field (Cid.read). Native part: the same cells through the field, a text stream and a file path.",
+    "C04": " Native part: composite keys that collide under joining / rendering, malformed rows with hostile items in three modes, CID files rewritten between validations.",
+    "C05": " Also the validate-only API, Integer and pooled Text keys, two DistinctCount checks, a second pass. Native part: colliding composite keys, field names differing in case.",
+    "C06": " Also a symbolic validation limit. Native part: real broken containers (csv dialects, undecodable bytes, short fixed records, broken archives) in the three modes under the same relation.",
+    "C07": " Also the Writer under Header 1 and 2. Native part: real csv texts with blank lines and multi-line cells x header x limit against the reference reader and validate().",
+    "C08": " Also real two-run histories (delimited and fixed format, check order), iterators obtained / readers created before another run, a forgotten validator collected mid-run.",
+    "C09": " Native part also: grid of field rows (format x length x example x mark x type), sound CIDs with case-carrying values, types defined after a first Cid.",
+    "C11": " Native part also: numeric property texts against int(), values written in CID rows versus set directly.",
+    "C13": " Also the encoding argument. Native part: inputs of up to 55,000 characters through stream and path against the same recogniser.",
+    "C14": " Also two whole-file checks declared against the alphabetical order of their names, line delimiter none. Native part: Writer -> csv module -> Reader round trips of hostile values under nine dialects (stream and path), fixed round trips through a path.",
+    "C15": " Native part also: eight document encodings, undecodable encodings, pretty-printed documents, commented cells.",
+    "C16": " Native part also: cells of different kinds storing equal numbers, texts of 32,767 characters, sparse rows.",
+    "C17": " Native part also: suffix case, commented ODS cells, rows ending in empty cells, files rewritten between validations.",
+    "C18": " Native part also: --until x header x bad row against validate(); large files the reader gives up on; odd files and file names against the API.",
+    "C19": " Native part also: keyword case, keyword quoting across dialect orders in one process, factory reuse.",
+    "C20": " Also a multi-item length with a gap, 'allowed characters' declared after the fields, a validator left through its with-block by an error, plugin folders.",
+}
 NOT_APPLICABLE = {
     "C12": "the round trip is performed by CPython's C module _csv; symbolic cells are realised at that boundary, so no solver verdict over the real code is possible (DESIGN.md section 6, C12)",
 }
@@ -41,6 +61,7 @@ def main():
     for pid in props:
         if pid in CLAIMED:
             ref, text = CLAIMED[pid]
+            text += NATIVE.get(pid, "")
             checks.append(dict(
                 property_id=pid,
                 quick_cmd="./check %s --tier quick" % pid,
